@@ -42,3 +42,9 @@ Section Window.
   Definition first_at_or_after (nxt : M -> N) (a : option Z) (fo0 : N) (l : list M) : option M :=
     find (fun m => (fo0 <? nxt m)%N && geq_lo a (t m)) l.
 End Window.
+
+(* "keep their order": the selection is a subsequence of the source *)
+Inductive sublist {A : Type} : list A -> list A -> Prop :=
+| sub_nil : sublist [] []
+| sub_skip x l1 l2 : sublist l1 l2 -> sublist l1 (x :: l2)
+| sub_keep x l1 l2 : sublist l1 l2 -> sublist (x :: l1) (x :: l2).
